@@ -381,6 +381,7 @@ func main() {
 	nattr := flag.Int("nattr", 300, "attribution histories")
 	nrepo := flag.Int("nrepo", 6, "generated repository groups for the isolation part")
 	maxfiles := flag.Int("maxfiles", 4, "largest subset size")
+	nonce := flag.Int("nonce", 60, "generated repositories for the once-per-run part")
 	out := flag.String("out", "", "output directory")
 	replay := flag.String("replay", "", "replay file")
 	extractGlobals := flag.String("extract-globals", "", "translator mode: list the package-level variables of the package in this directory")
@@ -647,6 +648,14 @@ func main() {
 		}
 	}
 	runtime.GOMAXPROCS(runtime.NumCPU())
+
+	// ---- (D) once per run
+	casesOnce, err := os.Create(filepath.Join(*out, "cases_once.txt"))
+	hx.Must(err)
+	defer casesOnce.Close()
+	for g := 0; g < *nonce; g++ {
+		nontrivial += onceRuns(r, scratch, g, sum, casesOnce)
+	}
 
 	// ---- (C) tables
 	after := tables()
